@@ -487,6 +487,10 @@ def cursor(F, rep):
     rep.ob("CURSOR", "skip|one-normalising-loop", passes == {"Comment": False, "Newline": True},
            "skip() ends with a single loop that passes Comment tokens unconditionally and Newline tokens under the "
            "skip_newlines flag, so they may alternate (%s)" % passes, fn["sp"])
+    # (2') prev() steps back one token and then passes comments backwards: it hands back a context that rests on a token
+    import progress
+    pv_ok, pv_text = progress.check_prev(F)
+    rep.ob("CURSOR", "prev|rests-on-a-token", pv_ok, "Context::prev: " + pv_text, F.fns.get(P + "Context::prev", {}).get("sp"))
     fpush = F.fn(P + "Context::push_skip_newlines")
     t = tc.n_tail(fn_body(fpush))
     ok = False
